@@ -28,6 +28,12 @@ Sec(const std::string &name, char l = '0')
       {"Xm", "LX#a CXab W# DXb DXa"},          // X held through move construction
       {"Sm", "LS#a CSab R# DSb DSa"},
       {"6m", "L6#a C6ab R# D6b D6a"},
+      {"Xn", "LX#a CXab DXa W# DXb"},          // ... and the moved-from source destroyed first (a guard returned from a function)
+      {"Sn", "LS#a CSab DSa R# DSb"},
+      {"6n", "L6#a C6ab D6a R# D6b"},
+      {"Xb", "LX#a EXb MXab DXa W# DXb"},      // move assignment onto an empty guard, source destroyed first
+      {"Sb", "LS#a ESb MSab DSa R# DSb"},
+      {"6b", "L6#a E6b M6ab D6a R# D6b"},
       {"Xa", "LX#a EXb MXab W# DXa DXb"},      // move assignment onto an empty guard
       {"Sa", "LS#a ESb MSab R# DSa DSb"},
       {"6a", "L6#a E6b M6ab R# D6a D6b"},
@@ -53,6 +59,8 @@ Sec(const std::string &name, char l = '0')
       {"OU", "GV# RO# T6a R# UPaa K# W# DXa"},
       {"P", "PR#a RO# CVa DCa"},
       {"Pm", "PR#a CCab RO# CVb DCb DCa"},
+      {"Pn", "PR#a CCab DCa RO# CVb DCb"},        // moved-from composite guard destroyed while the new one is in use
+      {"Pc", "PR#a PR1b MCab DCa RO# CVb DCb"},
       {"Pa", "PR#a PR1b MCab RO# CVb DCb DCa"},
       {"Pb", "PR#b PR1a MCab RO1 CVb DCb DCa"},   // a (possibly owning) guard of this lock overwritten by another lock's guard
       {"PP", "PR#a RO# CVa DCa PR#a RO# CVa DCa"},
@@ -233,7 +241,7 @@ Family(const std::string &f, int lk)
     for (auto &x : a0)
       for (auto &y : a1) out.push_back(x + " | " + y);
   } else if (f == "guards1") {  // sequential guard algebra (one thread)
-    for (const char *s : {"Xm", "Sm", "6m", "Xa", "Sa", "6a", "Xo", "So", "6o", "e", "eU", "eD", "Um", "Dm", "SS", "S6", "DU", "UD", "Ss", "Sd", "Xp"}) {
+    for (const char *s : {"Xm", "Sm", "6m", "Xa", "Sa", "6a", "Xo", "So", "6o", "e", "eU", "eD", "Um", "Dm", "SS", "S6", "DU", "UD", "Ss", "Sd", "Xp", "Xn", "Sn", "6n", "Xb", "Sb", "6b"}) {
       out.push_back(Sec(s));
     }
     // two sections in a row (state left by the first is the start of the second)
@@ -241,7 +249,7 @@ Family(const std::string &f, int lk)
     for (auto &x : g)
       for (auto &y : g) out.push_back(Sec(x) + " " + Sec(y));
   } else if (f == "guards2") {  // guard algebra against one contender
-    const Strs g = {"Xm", "Sm", "6m", "Xa", "Sa", "6a", "Xo", "So", "6o", "Um", "Dm", "eU", "eD", "SS", "S6", "Ss", "Sd", "Xp"};
+    const Strs g = {"Xm", "Sm", "6m", "Xa", "Sa", "6a", "Xo", "So", "6o", "Um", "Dm", "eU", "eD", "SS", "S6", "Ss", "Sd", "Xp", "Xn", "Sn", "6n", "Xb", "Sb", "6b"};
     for (auto &x : g)
       for (auto &y : {"S", "SIX", "X", "U"}) out.push_back(Sec(x) + " | " + Sec(y));
     for (auto &x : {"Xo", "So", "6o"}) out.push_back(Sec(x) + " | " + Sec("X", '1'));
@@ -253,7 +261,7 @@ Family(const std::string &f, int lk)
     const Strs readers = {"O", "OS", "O6", "OX", "P"};
     const Strs writers = {"X", "Xvp", "U", "D"};
     if (f == "opt1") {
-      for (const char *s : {"O", "OO", "OS", "O6", "OX", "OXg", "OU", "P", "Pm", "Pa", "PP", "Xg", "Xvp", "Xv0", "Xvm", "Xvs", "Xvq", "Dvp", "Dvs", "Ug", "Xmv", "Xav", "Xov"}) {
+      for (const char *s : {"O", "OO", "OS", "O6", "OX", "OXg", "OU", "P", "Pm", "Pa", "PP", "Pn", "Pc", "Xg", "Xvp", "Xv0", "Xvm", "Xvs", "Xvq", "Dvp", "Dvs", "Ug", "Xmv", "Xav", "Xov"}) {
         out.push_back(Sec(s));
         out.push_back("v=ffffffff;" + Sec(s));
       }
@@ -302,7 +310,7 @@ Family(const std::string &f, int lk)
     } else if (f == "ver3") {
       add(Cross({"Xg", "Xvp", "Ug", "Dvp"}, {"Xg", "S", "O", "U", "D"}, 2));
     } else if (f == "prep2") {  // C13
-      for (auto &p : {"P", "Pm", "Pa", "Pb", "PP"})
+      for (auto &p : {"P", "Pm", "Pa", "Pb", "PP", "Pn", "Pc"})
         for (auto &w : {"X", "Xvp", "U", "D", "S", "SIX", "P", "OX", "DU"}) out.push_back(Sec(p) + " | " + Sec(w));
       for (auto &p : {"P", "PP"})
         for (auto &w1 : {"X", "D", "U"})
